@@ -46,7 +46,15 @@ Inductive tag :=
   | TFuncDecl                   (* a = 1 iff Recv, b = 1 iff Body; Recv? Name Type Body? *)
   | TGenDecl                    (* a = token (IMPORT/CONST/TYPE/VAR); Specs *)
   | TTypeSpec                   (* a = 1 iff TypeParams; Name TypeParams? Type *)
-  | TOther (c : nclass).        (* any other node; children in ast.Inspect order *)
+  | TSwitch                     (* a = 1 iff Init, b = 1 iff Tag; Init? Tag? Body *)
+  | TTypeSwitch                 (* a = 1 iff Init; Init? Assign Body *)
+  | TSelect                     (* [Body] *)
+  | TFor                        (* a = presence mask Init(1) Cond(2) Post(4); Init? Cond? Post? Body *)
+  | TBranch                     (* a = token (BREAK/CONTINUE/GOTO/FALLTHROUGH); Label? *)
+  | TValueSpec                  (* a = number of names, b = 1 iff Type; Names ++ Type? ++ Values *)
+  | TTypeAssert                 (* a = 1 iff Type (0 for x.(type)); X Type? *)
+  | TOther (c : nclass).        (* any other node; children in ast.Inspect order; a = 1000 * kind code + scalar attribute
+                                   (token, channel direction, ...) so that structural equality tells kinds apart *)
 
 (* object a (callee) identifier resolves to, from types.Info.Uses / Defs *)
 Inductive okind :=
@@ -87,24 +95,46 @@ Record facts := {
   f_sig : sigfact;          (* Expr: TypeOf is a signature *)
   f_istype : bool;          (* Expr: denotes a type (types.TypeAndValue.IsType), e.g. the Fun of a conversion *)
   f_multi : N;              (* Expr: number of values when it is a (possibly parenthesised) call yielding a tuple of >= 2, else 0 *)
-  f_basic : option (N * N * N)  (* Expr: underlying basic type: (info flags, kind, size in bytes) *)
+  f_basic : option (N * N * N); (* Expr: underlying basic type: (info flags, kind, size in bytes) *)
+  f_ext : N;                (* bit set of further boolean facts, see [x_*] below *)
+  f_tn : string             (* Expr: unnamedResult.typeName(TypeOf(e)): name of the named type under pointers/slices/arrays, "" otherwise *)
 }.
 
 Definition nf : facts :=
   {| f_obj := ONone; f_objid := 0; f_astobj_nil := true; f_ty := TyOther; f_deflit := false; f_arr := false; f_pure := false;
-     f_cst := None; f_sig := NoSig; f_istype := false; f_multi := 0; f_basic := None |}.
+     f_cst := None; f_sig := NoSig; f_istype := false; f_multi := 0; f_basic := None; f_ext := 0; f_tn := "" |}.
 
 (* compact constructor used by the converter *)
 Definition F (o : okind) (id : N) (astnil : bool) (t : tyclass) (deflit arr pure : bool) (cst : option string)
   (sg : sigfact) (istype : bool) (multi : N) : facts :=
   {| f_obj := o; f_objid := id; f_astobj_nil := astnil; f_ty := t; f_deflit := deflit; f_arr := arr; f_pure := pure;
-     f_cst := cst; f_sig := sg; f_istype := istype; f_multi := multi; f_basic := None |}.
+     f_cst := cst; f_sig := sg; f_istype := istype; f_multi := multi; f_basic := None; f_ext := 0; f_tn := "" |}.
 
 (* the same with the underlying basic type: (types.BasicInfo flags, types.BasicKind, 1 + Sizeof or 0 when unknown) *)
 Definition FB (o : okind) (id : N) (astnil : bool) (t : tyclass) (deflit arr pure : bool) (cst : option string)
   (sg : sigfact) (istype : bool) (multi : N) (binfo bkind bsize1 : N) : facts :=
   {| f_obj := o; f_objid := id; f_astobj_nil := astnil; f_ty := t; f_deflit := deflit; f_arr := arr; f_pure := pure;
-     f_cst := cst; f_sig := sg; f_istype := istype; f_multi := multi; f_basic := Some (binfo, bkind, bsize1) |}.
+     f_cst := cst; f_sig := sg; f_istype := istype; f_multi := multi; f_basic := Some (binfo, bkind, bsize1); f_ext := 0; f_tn := "" |}.
+
+(* any of the above extended with the bit set and the type name *)
+Definition FX (base : facts) (ext : N) (tn : string) : facts :=
+  {| f_obj := f_obj base; f_objid := f_objid base; f_astobj_nil := f_astobj_nil base; f_ty := f_ty base; f_deflit := f_deflit base;
+     f_arr := f_arr base; f_pure := f_pure base; f_cst := f_cst base; f_sig := f_sig base; f_istype := f_istype base;
+     f_multi := f_multi base; f_basic := f_basic base; f_ext := ext; f_tn := tn |}.
+
+(* bits of [f_ext] (filled by the converter from types.Info, go/ast and typep exactly as the checkers call them) *)
+Definition x_defs : N := 0.        (* Ident: TypesInfo.Defs[id] != nil *)
+Definition x_exported : N := 1.    (* Ident: ast.IsExported(id.Name) *)
+Definition x_ptr_u : N := 2.       (* Expr: TypeOf(e).Underlying() is a pointer *)
+Definition x_ptr_elem_pi : N := 3. (* Expr: ... whose Elem().Underlying() is a pointer or an interface *)
+Definition x_ptr_arr : N := 4.     (* Expr: TypeOf(e) is directly a pointer to (directly) an array *)
+Definition x_ptr_ref : N := 5.     (* Expr: TypeOf(e) is directly a pointer whose element is a map, chan, interface or named interface *)
+Definition x_slice : N := 6.       (* Expr: typep.IsSlice(TypeOf(e)) *)
+Definition x_typeexpr : N := 7.    (* Expr: typep.IsTypeExpr(info, e) *)
+Definition x_assert_same : N := 8. (* TypeAssertExpr: types.Identical(TypeOf(e), TypeOf(e.X)) *)
+Definition x_multiline : N := 9.   (* FieldList: Opening and Closing are on different lines *)
+Definition x_var_nonstruct : N := 10. (* Ident: ObjectOf(id) is a *types.Var whose type's underlying type is not a struct *)
+Definition x_fn_same_type : N := 11.  (* FuncLit whose body is `return f(...)`: types.Identical(TypeOf(lit), TypeOf(f)) *)
 
 Inductive node := Nd (t : tag) (pos : N) (s : string) (a b : N) (f : facts) (kids : nodes)
 with nodes := NN | NC (n : node) (r : nodes).
@@ -149,6 +179,8 @@ Definition tag_eqb (x y : tag) : bool :=
   | TFieldList, TFieldList | TField, TField | TBlock, TBlock | TAssign, TAssign | TReturn, TReturn | TRange, TRange
   | TIf, TIf | TDefer, TDefer | TExprStmt, TExprStmt | TCaseClause, TCaseClause | TCommClause, TCommClause
   | TFuncDecl, TFuncDecl | TGenDecl, TGenDecl | TTypeSpec, TTypeSpec => true
+  | TSwitch, TSwitch | TTypeSwitch, TTypeSwitch | TSelect, TSelect | TFor, TFor | TBranch, TBranch
+  | TValueSpec, TValueSpec | TTypeAssert, TTypeAssert => true
   | TOther CExpr, TOther CExpr | TOther CStmt, TOther CStmt | TOther CNode, TOther CNode => true
   | _, _ => false
   end.
@@ -158,9 +190,10 @@ Definition is_tag (t : tag) (n : node) : bool := tag_eqb (ntag n) t.
 Definition class_of (t : tag) : nclass :=
   match t with
   | TIdent | TBasicLit | TParen | TStar | TUnary | TBinary | TSelector | TIndex | TIndexList | TSliceExpr | TCall
-  | TCompositeLit | TFuncLit | TArrayType | TFuncType => CExpr
-  | TBlock | TAssign | TReturn | TRange | TIf | TDefer | TExprStmt | TCaseClause | TCommClause => CStmt
-  | TFieldList | TField | TFuncDecl | TGenDecl | TTypeSpec => CNode
+  | TCompositeLit | TFuncLit | TArrayType | TFuncType | TTypeAssert => CExpr
+  | TBlock | TAssign | TReturn | TRange | TIf | TDefer | TExprStmt | TCaseClause | TCommClause
+  | TSwitch | TTypeSwitch | TSelect | TFor | TBranch => CStmt
+  | TFieldList | TField | TFuncDecl | TGenDecl | TTypeSpec | TValueSpec => CNode
   | TOther c => c
   end.
 
@@ -188,6 +221,9 @@ Definition tok_ASSIGN : N := 42.
 Definition tok_NEQ : N := 44.  Definition tok_LEQ : N := 45.   Definition tok_GEQ : N := 46.
 Definition tok_DEFINE : N := 47.
 Definition tok_TYPE : N := 84.
+Definition tok_LAND : N := 34.  Definition tok_LOR : N := 35.
+Definition tok_BREAK : N := 61. Definition tok_FALLTHROUGH : N := 69.
+Definition tok_CONST : N := 64. Definition tok_VAR : N := 85. Definition tok_IMPORT : N := 75.
 
 (* ---------- accessors through the encoding ---------- *)
 Definition kid (i : nat) (n : node) : option node := nth_error (kids n) i.
@@ -296,7 +332,9 @@ Definition wf_node (n : node) : bool :=
   | TArrayType => Nat.eqb (length ks) (N.to_nat (na n) + 1) && forallb is_expr ks
   | TFuncType =>
       Nat.eqb (length ks) (N.to_nat (na n) + 1 + N.to_nat (nb n)) && all_tag TFieldList ks &&
-      N.leb (na n) 1 && N.leb (nb n) 1
+      N.leb (na n) 1 && N.leb (nb n) 1 &&
+      (* "mixed named and unnamed parameters" is a syntax error *)
+      forallb (fun fl => forallb (fun fd => N.eqb (na fd) 0) (kids fl) || forallb (fun fd => negb (N.eqb (na fd) 0)) (kids fl)) ks
   | TFieldList => all_tag TField ks
   | TField =>
       Nat.leb (N.to_nat (na n) + 1) (length ks) && all_tag TIdent (firstn (N.to_nat (na n)) ks) &&
@@ -345,7 +383,32 @@ Definition wf_node (n : node) : bool :=
   | TTypeSpec =>
       N.leb (na n) 1 && Nat.eqb (length ks) (N.to_nat (na n) + 2) &&
       match ks with nm :: _ => is_tag TIdent nm | [] => false end
-  | TOther _ => true
+  | TSwitch =>
+      N.leb (na n) 1 && N.leb (nb n) 1 && Nat.eqb (length ks) (N.to_nat (na n) + N.to_nat (nb n) + 1) &&
+      match nth_error ks (N.to_nat (na n) + N.to_nat (nb n)) with
+      | Some body => is_tag TBlock body && all_tag TCaseClause (kids body)
+      | None => false
+      end
+  | TTypeSwitch =>
+      N.leb (na n) 1 && Nat.eqb (length ks) (N.to_nat (na n) + 2) &&
+      match nth_error ks (N.to_nat (na n) + 1) with
+      | Some body => is_tag TBlock body && all_tag TCaseClause (kids body)
+      | None => false
+      end
+  | TSelect => match ks with [body] => is_tag TBlock body && all_tag TCommClause (kids body) | _ => false end
+  | TFor =>
+      N.leb (na n) 7 &&
+      Nat.eqb (length ks) (N.to_nat (N.land (na n) 1) + N.to_nat (N.land (N.shiftr (na n) 1) 1) + N.to_nat (N.shiftr (na n) 2) + 1) &&
+      is_tag TBlock (last ks n)
+  | TBranch => match ks with [] => true | [l] => is_tag TIdent l | _ => false end
+  | TValueSpec =>
+      N.ltb 0 (na n) && N.leb (nb n) 1 && Nat.leb (N.to_nat (na n) + N.to_nat (nb n)) (length ks) &&
+      all_tag TIdent (firstn (N.to_nat (na n)) ks) && forallb is_expr ks
+  | TTypeAssert => N.leb (na n) 1 && Nat.eqb (length ks) (N.to_nat (na n) + 1) && forallb is_expr ks
+  | TOther _ =>
+      (* StructType.Fields / InterfaceType.Methods (kind codes 2 and 3) are never nil *)
+      if N.eqb (N.div (na n) 1000) 2 || N.eqb (N.div (na n) 1000) 3
+      then match ks with [fl] => is_tag TFieldList fl | _ => false end else true
   end.
 
 (* positions: membership in the scanner's token starts through a positive set *)
